@@ -42,6 +42,7 @@ def cfg_for_case(rng, k: int, traditional: bool = False) -> GenCfg:
         c.max_depth = 4
         c.p_nested = 0.6
         c.digit_fields = 0.4
+        c.p_same_short_name = 0.5
     elif r == 5:
         c.msg_bits = 64
         c.max_fields = 10
@@ -200,6 +201,8 @@ def add_special_shapes(root: File, rng) -> None:
             field(Arr(Ref(row), 2))
         field(Base("uint", rng.choice([1, 3, 5])))
     root.add(m)
+    if rng.random() < 0.5:
+        gen.add_same_name_shapes(root, rng, ext_ok=root_has_ext(root))
 
 
 def root_has_ext(root: File) -> bool:
